@@ -56,7 +56,8 @@ def bad_bytes(g, codec, utf8_only):
     a = set(g.alpha[codec])
     cands = [b for b in list(b"acgtnxN-.*?! 0\n\tUXZ@[`{~") + [x + 1 for x in a] + [x - 1 for x in a] + [x ^ 0x20 for x in a] if 0 <= b < 128 and b not in a]
     if not utf8_only:
-        cands += [0x80, 0xff, 0xc3, 0xa9]
+        # high bytes, UTF-8 lead/continuation bytes, and the valid letters with bit 7 set (aliases under a 7-bit table lookup)
+        cands += [0x80, 0xff, 0xc3, 0xa9] + sorted({x | 0x80 for x in a})
     return cands
 
 
@@ -675,6 +676,11 @@ def gen_C02(g, tier):
                     prs = EQ_PAIRINGS if tier != "quick" else r.sample(EQ_PAIRINGS, 3)
                     for pr in prs:
                         lines.append(f"{c} eq {pr} {a} {b}")
+                    # static arrays (hand-built SeqArray) on either side, compared and hashed through Deref
+                    if 1 <= n <= 5 or n in (per - 1, per, per + 1):
+                        lines.append(f"{c} eq {r.choice(EQ_PAIRINGS)} arr {a} {b}")
+                        lines.append(f"{c} eq {r.choice(EQ_PAIRINGS)} {a} arr {b}")
+                        lines.append(f"{c} hasheq arr {a} {b}")
                 # equal to its own displayed text and to no other sequence's text
                 ct = g.canon_text(c, n)
                 sl = offset_slice(g, c, ct, lead)
@@ -737,6 +743,10 @@ def gen_C02(g, tier):
                         lines.append(f"{c} kmer eq {K} {st} {pr} {v} {offset_slice(g, c, t2, r.randrange(0, per + 1))}")
                     if len(t2) == K:
                         lines.append(f"{c} kmer eqk {K} {st} {v} {g.value(c, t2)}")
+                        if K * w <= 64:
+                            # the static-array pairings (Kmer == SeqArray<A,K,1>, == &SeqArray), array built by hand
+                            lines.append(f"{c} kmer eq {K} {st} arr {v} {offset_slice(g, c, t2, r.randrange(0, per + 1))}")
+                            lines.append(f"{c} kmer eq {K} {st} refarr {v} p str {hx(t2)}")
                 if st == "usize":
                     ct = g.canon_text(c, K)
                     cv = g.value(c, ct)
@@ -1082,6 +1092,31 @@ def gen_C12(g, tier):
         lines.append(f"{c} show and {sa} {sc}")
         lines.append(f"{c} show or {sc} {sa}")
         lines.append(f"{c} show tocomp p str {hx(ta)}")
+    # a position-wise sub-pattern except at exactly one position (first / last / around each word boundary / random);
+    # operands that are all gaps (the empty set everywhere) on either side
+    for n in ([1, 16, 17, 33, 40] if tier == "quick" else [1, 2, 15, 16, 17, 31, 32, 33, 40, 48, 65, 80]):
+        ta = [iupac_char(g, r.randrange(1, 15)) for _ in range(n)]
+        sub = [iupac_char(g, g.code(c, x) & r.randrange(16)) for x in ta]
+        sa = offset_slice(g, c, ta, r.randrange(0, per + 1))
+        lines.append(f"{c} contains seq {sa} {offset_slice(g, c, sub, r.randrange(0, per + 1))}")
+        lines.append(f"{c} contains slice {sa} p str {hx(sub)}")
+        for i in sorted({0, n - 1, n // 2, (n // 16) * 16 - 1, (n // 16) * 16, r.randrange(n)}):
+            if not 0 <= i < n:
+                continue
+            outside = [x for x in range(1, 16) if x & ~g.code(c, ta[i]) & 15]
+            tb = sub[:i] + [iupac_char(g, r.choice(outside))] + sub[i + 1:]
+            sb = offset_slice(g, c, tb, r.randrange(0, per + 1))
+            lines.append(f"{c} contains seq {sa} {sb}")
+            lines.append(f"{c} contains seq p str {hx(ta)} p str {hx(tb)}")
+            lines.append(f"{c} contains slice {sa} {sb}")
+        gaps = [iupac_char(g, 0)] * n
+        for (x, y) in ((ta, gaps), (gaps, ta), (gaps, gaps)):
+            sx, sy = offset_slice(g, c, x, r.randrange(0, per + 1)), offset_slice(g, c, y, r.randrange(0, per + 1))
+            lines.append(f"{c} show and {sx} {sy}")
+            lines.append(f"{c} show or {sx} {sy}")
+            lines.append(f"{c} show bitand own {sx} own {sy}")
+            lines.append(f"{c} contains seq {sx} {sy}")
+            lines.append(f"{c} contains slice {sx} {sy}")
     for _ in range(12 if tier == "quick" else 200):
         na, nb = r.choice([1, 3, 15, 18]), r.choice([1, 5, 16, 33])
         ta, tb = g.text(c, na), g.text(c, nb)
@@ -1213,6 +1248,19 @@ def gen_C19(g, tier):
         lines.append(f"dna conv iupac {sl}")
         lines.append(f"dna conv text {sl}")
         lines.append(f"dna conv text sl full 0 0 own {sl}")
+    # hand-built SeqArray values (public fields): From<&SeqArray> / From<SeqArray> for Seq<B>, same codec and across codecs
+    ARR = [1, 2, 3, 4, 5, 8, 10, 11, 12, 13, 15, 16, 17, 21, 31, 32, 33, 48, 63, 64, 65, 96, 128]
+    for n in (ARR if tier != "quick" else [1, 5, 31, 32, 33, 64, 65, 96, 128]):
+        t = g.text("dna", n)
+        for kind in ("ref", "val"):
+            lines.append(f"dna convarr iupac {kind} p str {hx(t)}")
+            lines.append(f"dna convarr text {kind} {offset_slice(g, 'dna', t, r.randrange(1, 33))}")
+    for c in CODECS:
+        for n in (ARR if tier != "quick" else r.sample(ARR, 6) + [32, 64]):
+            t = g.text(c, n)
+            lines.append(f"{c} show fromarr ref p str {hx(t)}")
+            lines.append(f"{c} show fromarr val {offset_slice(g, c, t, r.randrange(1, 9))}")
+            lines.append(f"{c} show arr p str {hx(t)}")
     for c in CODECS:
         w = g.width[c]
         bads = bad_bytes(g, c, False)
